@@ -104,6 +104,10 @@ func (e *Engine) verifyLemma(name string, c *Contract) *FuncReport {
 		st.assume(r)
 	}
 	e.obls = append(e.obls, &Obligation{Name: fi.Key + "/cover/requires", Func: fi.Key, Tags: rep.Tags, Hyps: append([]*Term(nil), st.pc...), Goal: tFalse, Kind: "cover", Where: c.Where})
+	// lemmas may use other (separately proved) lemmas
+	for _, cl := range c.byKind("use", "") {
+		e.useLemma(cl.Expr, env, st, cl.Where)
+	}
 	if ind == "" {
 		for j, g := range enss {
 			e.assert(st, g, fmt.Sprintf("ensures#%d", j), c.Where, nil)
@@ -156,11 +160,15 @@ func (e *Engine) useLemma(x *SExpr, env *SpecEnv, st *State, where string) {
 			unsup("use %s: too few arguments", name)
 		}
 		if args[ai].Kind == "ident" && args[ai].Val == "_" {
-			// universally quantified integer parameter
+			// universally quantified parameter
 			e.nfresh++
-			b2 := mkVar(fmt.Sprintf("%s$%d", p.name, e.nfresh), SInt)
+			srt, typ := SInt, types.Type(types.Typ[types.Int])
+			if p.kind == "real" {
+				srt, typ = SReal, types.Typ[types.Float64]
+			}
+			b2 := mkVar(fmt.Sprintf("%s$%d", p.name, e.nfresh), srt)
 			bvs = append(bvs, b2)
-			names[p.name] = VTerm{T: b2, Typ: types.Typ[types.Int]}
+			names[p.name] = VTerm{T: b2, Typ: typ}
 			ai++
 			continue
 		}
